@@ -35,7 +35,7 @@ def hap_of(tags):
     return None
 
 
-def build_case(main_lens, confs, name_tag_at, name_tag, unpainted, main_last, hap_pattern=None, singleton_at=None, flip=False):
+def build_case(main_lens, confs, name_tag_at, name_tag, unpainted, main_last, hap_pattern=None, singleton_at=None, flip=False, unpainted_tag=None):
     """
     returns (inp, pv scaffolds, model) ; every piece is a whole single-contig input scaffold.
     model: list per Pretext scaffold of dict(main=[input names], unlocs=[...], haplotigs=[...], tag=.., hap=..)
@@ -84,8 +84,9 @@ def build_case(main_lens, confs, name_tag_at, name_tag, unpainted, main_last, ha
     if unpainted:
         for j in range(unpainted):
             un, ul = new_input(6 + j)
-            scaffolds.append((f"Scaffold_{len(scaffolds) + 1}", ((un, 1, ul, 1, ()),)))
-            model.append({"main": [un], "unlocs": [], "haplotigs": [], "tag": None, "hap": None, "unpainted": True})
+            # (unpainted_tag: a chromosome name tag on a Pretext scaffold that is not painted)
+            scaffolds.append((f"Scaffold_{len(scaffolds) + 1}", ((un, 1, ul, 1, (unpainted_tag,) if unpainted_tag else ()),)))
+            model.append({"main": [un], "unlocs": [], "haplotigs": [], "tag": unpainted_tag, "hap": None, "unpainted": True})
     return tuple(inp), tuple(scaffolds), model
 
 
@@ -406,6 +407,10 @@ class C10(Check):
                                         prefix = PREFIXES[(n + (tag_at or 0) + unp) % 3]
                                         inp, scaffolds, _ = build_case(lens, confs, tag_at, tag, unp, main_last, flip=flip)
                                         self.run_case(inp, scaffolds, prefix, ctx)
+                                        if unp and tag_at is None and not flip:
+                                            # the name tag sits on the scaffold that is not painted
+                                            inp, scaffolds, _ = build_case(lens, confs, None, None, unp, main_last, unpainted_tag="Z")
+                                            self.run_case(inp, scaffolds, prefix, ctx)
             inp, scaffolds, _ = build_case((20,) * n, confs_all[block * 5], None, None, 1, False)
             ctx.sample({"input": pv.jsonable(inp), "pretext": pv.jsonable((1.0, scaffolds)), "prefix": "SUPER_"})
         elif kind == "tagpairs":
@@ -561,3 +566,4 @@ class C10(Check):
 CHECK = C10()
 # scope added in later rounds, kept in the evidence text
 CHECK.rule += ' Name-tag pairs where one tag is a prefix of the other (I / I_II, X / X_2 ...); the prefix given to the constructor or assigned afterwards must give the same names; a second request to the same BuildAssembly must repeat the first.'
+CHECK.rule += ' A chromosome name tag (Z) on a Pretext scaffold that is not painted. An assembly that holds chromosomes must be flagged curated (the command line writes its chromosome list only then).'
